@@ -35,6 +35,44 @@ CLAIMS = {
   ref="DESIGN.md §4 C14"),
 }
 
+NOTE = ("Trusted: CPython ast; /verif/sa source index and resolver (C3 MRO verified equal to runtime __mro__ at build time), statement CFG "
+        "(exception edges from call/raise/assert/yield statements and from every statement inside a try body that has handlers; other implicit "
+        "exceptions are not modelled), flow-insensitive def-use, write summaries (mutating-method list in sa/flow.py). A construct outside the "
+        "modelled fragment or a vanished anchor gives exit 2 (ANALYSIS-ERROR), never a violation. Decides the named structural clauses only; "
+        "the behavioural statement of the property as a whole is not decided (it quantifies over runtime values).")
+
+TECH = {
+ "C02": "static analysis: G-MEMO key/orientation/hit rules, def-use provenance of factor composition in _convert/_get_root_units_recurse/get_name, in-place vs functional twin agreement (ast-based)",
+ "C03": "static analysis: path-sensitive abstract interpretation of the Quantity operator methods over a unit-tag domain (G-TAG), twin agreement of reflected/in-place forms, finite abstract evaluation of _ok_for_muldiv (ast-based)",
+ "C04": "static analysis: ownership/copy-on-write of UnitsContainer representation fields (G-OWN), canonical-form rule (no zero exponents stored), hash/eq field agreement, operator delegation (ast-based)",
+ "C05": "static analysis: unit-tag abstract interpretation of __eq__/compare (G-TAG), hash/eq agreement on dimensionality, rich-comparison operator table (ast-based)",
+ "C06": "static analysis: term rewriting of converter op-sequences (from_reference is the exact inverse of to_reference; in-place == functional), CFG gates for offset/delta arithmetic and powers (ast-based)",
+ "C07": "static analysis: call-graph reachability from parsing entry points (no eval/exec/import of input), operator/priority table agreement between tokenizer, evaluator and formatter, recursion exponent rule (ast-based)",
+ "C08": "static analysis: CFG ordering of exact lookup before prefix/suffix search, gates on prefixed offset units, case-insensitive index writer agreement, who-may-write of the unit table on lookup (ast-based)",
+ "C09": "static analysis: table extraction of formatter layouts vs parser operator table (G-TABLE), dispatch order and interface exhaustiveness (G-EXH), purity of formatting code (G-OWN), lru_cache inventory (ast-based)",
+ "C10": "static analysis: error discipline (built errors are raised, validators get the field they name), parser block/definition class exhaustiveness, disk-cache key coverage, adder registration table (ast-based)",
+ "C15": "static analysis: every exit of the unit-rewriting helpers returns self or to(U) through the gated converter; in-place twins use the same target; early-return guards of to_compact; reduction loop shape (ast-based)",
+ "C16": "static analysis: abstract evaluation of numpy_func.py's module-level registration loops into the full (kind, name) -> policy table, compared with a curated semantics table; error discipline and ownership rules of the special-cased implementations (ast-based; numpy not imported)",
+ "C17": "static analysis: CFG dominance of decoration-time argument-count checks, conversion/strictness rules per argument kind in _parse_wrap_args, result re-wrapping, check wrapper pairing order (ast-based)",
+ "C18": "static analysis: __reduce__/__init__ field round trip of every exception class, unpickle helper ordering, registry identity checks before cross-operand use, deepcopy memo/rebinding rules (ast-based)",
+ "C19": "static analysis: CFG dominance of the negative-error gate, def-use provenance of the stored magnitude and error conversion, operator priority table, tokenizer guard and sign-set agreement, formatter interface exhaustiveness (ast-based)",
+ "C20": "static analysis of data: independent exact-rational reader of default_en.txt/constants_en.txt compared with a curated table of standard values (CODATA/SI/NIST exact definitions), plus resolution, acyclicity and spelling-uniqueness of every entry",
+}
+
+
+def explanation_of(pid):
+    import ast as _ast
+    t = _ast.parse(open(os.path.join(VERIF, "sa", "rules", f"{pid}.py")).read())
+    for n in t.body:
+        if isinstance(n, _ast.Assign) and getattr(n.targets[0], "id", "") == "EXPLANATION":
+            return _ast.literal_eval(n.value)
+    raise SystemExit(f"{pid}: no EXPLANATION")
+
+
+for _pid, _t in TECH.items():
+    if _pid not in CLAIMS and os.path.exists(os.path.join(VERIF, "sa", "rules", f"{_pid}.py")):
+        CLAIMS[_pid] = dict(technique=_t, text=explanation_of(_pid), note=NOTE, ref=f"DESIGN.md §4 {_pid}")
+
 REASONS_PENDING = "rule pack under construction (see DESIGN.md §4); not claimed yet"
 
 NOT_APPLICABLE = {}
